@@ -262,14 +262,18 @@ class Interp:
     def op_run(self, via=0):
         del CALLS[:]
         cache = {'sigfield1': b'abc', 'extra': [1, b'x']}
+        if via & 4:
+            cache['timestamp'] = 1_700_000_000        # a caller that supplies the execution time itself
         contracts = {b'\x09' * 4: CONS[1]} if via % 2 else {}
         plugins = {'other_scope': [PLUGS[2]]} if via % 2 else {}
         before = (copy.deepcopy(cache), list(contracts), {k: list(v) for k, v in plugins.items()})    # callables are not copied
         try:
-            if via < 2:
+            if via & 2 == 0:
                 F.run_script(PROBE, cache, contracts, plugins=plugins)
             else:
-                ok = F.run_auth_scripts([PROBE], cache, contracts, plugins)
+                # via & 4: the probe is the second script of the list
+                scripts = [bytes([C['OP_TRUE'], C['OP_POP0']]), PROBE] if via & 4 else [PROBE]
+                ok = F.run_auth_scripts(scripts, cache, contracts, plugins)
                 if ok is not True:
                     self.fail('run/probe-script-does-not-authorise', repr(ok))
         except BaseException as e:  # noqa
@@ -398,9 +402,9 @@ def alphabets():
     A = {}
     for si in range(2):
         A['plugins:' + SCOPES[si]] = ([['addp', si, i] for i in range(3)] + [['remp', si, i] for i in range(3)] +
-                                      [['resetp', si], ['run', si * 2], ['addone', si]])
+                                      [['resetp', si], ['run', si * 2], ['run', 4 + si * 2], ['addone', si]])
     A['contracts+interfaces'] = ([['addc', 0], ['addc', 1], ['remc', 0], ['remc', 1], ['addi', 0], ['remi', 0], ['addi', 1],
-                                  ['remi', 1], ['run', 1]])
+                                  ['remi', 1], ['run', 1], ['run', 6], ['run', 7]])
     A['compile+aliases'] = ([['compile', si, ei] for si in range(NBASE) for ei in (0, 2, 3)] + [['compile', 1, 1], ['alias', 0], ['alias', 1]])
     A['aliases-of-block-ops'] = [['alias', 2], ['alias', 0], ['compile', [n for n, _, _ in SOURCES].index('alias-block'), 0],
                                  ['compile', [n for n, _, _ in SOURCES].index('alias-block'), 1], ['compile', 3, 0]]
@@ -480,7 +484,7 @@ def make_machine(ctx):
         def alias(self, k):
             self._go(['alias', k])
 
-        @rule(via=st.integers(0, 3))
+        @rule(via=st.integers(0, 7))
         def run(self, via):
             self._go(['run', via])
 
